@@ -371,20 +371,31 @@ def r13_4(ctx, prog, crate):
         ctx.check(ok, "R13.4", ["run_tree", "runs-retained-args"], "run_tree does not hand the leaf's (filtered) args to run_bench_entry", b.where(0))
 
 
-def r13_5(ctx, prog, crate):
+def retain_dominates_consumers(ctx, rule, prog, crate, why="filtered"):
+    """The one EntryTree::retain pass of run_action dominates every consumer of the tree (shared by R13.5 and R12.5)."""
     b = prog.body("divan::Divan::run_action", crate)
-    if not ctx.anchor("R13.5", "Divan::run_action", 1 if b else 0, 1):
-        return
+    if not ctx.anchor(rule, "Divan::run_action", 1 if b else 0, 1):
+        return None, None
     ctx.saw(b)
     rt = [c for c in b.live_calls() if c.callee == "entry::tree::EntryTree::retain"]
-    if not ctx.check(len(rt) == 1, "R13.5", ["run_action", "one-retain"], "retain sites: %d" % len(rt), b.where(0)):
-        return
+    if not ctx.check(len(rt) == 1, rule, ["run_action", "one-retain"], "retain sites: %d" % len(rt), b.where(0)):
+        return None, None
+    n = 0
     for callee in ("divan::Divan::run_tree_list", "entry::tree::EntryTree::sort_by_attr", "divan::Divan::run_tree", "entry::tree::EntryTree::max_name_span",
                    "entry::tree::EntryTree::common_column_width"):
         for c in b.live_calls():
             if c.callee == callee:
-                ctx.check(b.dominates(rt[0].bb, c.bb), "R13.5", ["run_action", "filter-before", callee.rsplit("::", 1)[-1]],
-                          "`%s` can run before the tree is filtered" % callee, c.line())
+                n += 1
+                ctx.check(b.dominates(rt[0].bb, c.bb), rule, ["run_action", "filter-before", callee.rsplit("::", 1)[-1]],
+                          "`%s` can run before the tree is %s" % (callee, why), c.line())
+    ctx.anchor(rule, "consumers of the entry tree in run_action", n, 4)
+    return b, rt
+
+
+def r13_5(ctx, prog, crate):
+    b, rt = retain_dominates_consumers(ctx, "R13.5", prog, crate)
+    if b is None:
+        return
     # groups are inserted before filtering (so group display names take part)
     ig = [c for c in b.live_calls() if c.callee == "entry::tree::EntryTree::insert_group"]
     for c in ig:
